@@ -2,8 +2,8 @@
 from . import tree
 
 FOCUS = tree.ATOMIC_CLAUSES
-QUICK = {"names": ["A", "B"], "objs": 3, "nvals": 1, "kids": 2, "held": 1, "state_fraction": 0.04, "extra_paths": 1}
-THOROUGH = {"names": ["A", "B"], "objs": 3, "nvals": 2, "kids": 2, "held": 1, "state_fraction": 1.0, "extra_paths": 2}
+QUICK = {"names": ["A", "B"], "objs": 3, "nvals": 1, "kids": 2, "held": 1, "state_fraction": 0.2, "extra_paths": 1, "only": "rejected"}
+THOROUGH = {"names": ["A", "B"], "objs": 3, "nvals": 2, "kids": 2, "held": 1, "state_fraction": 1.0, "extra_paths": 2, "only": "rejected"}
 
 
 def run(ctx):
